@@ -84,6 +84,11 @@ def attribute(ex, contract, o, default_safety):
     if o.kind == 'frame':
         fp = set(_G['db'].frame_props(contract.pkg)) if (contract is not None and 'db' in _G) else set()
         return set(o.props) | ({'C11'} if 'C11' in cprops else set()) | cprops | fp
+    if o.kind in ('invariant', 'assert', 'unwind'):
+        # loop invariants and lemma steps support every postcondition of their function, whatever tag they carry: a check
+        # that proved an `ensures` for one property while the invariant it rests on was only checked for another would
+        # not be modular
+        return set(o.props) | cprops | (set(default_safety) if not cprops else set())
     if o.props:
         return set(o.props)
     if o.kind == 'pre':
